@@ -554,14 +554,28 @@ def generate(write: bool = True) -> dict:
         if prev_ctor_mod[mid]:
             out.append(f"import SpoxModel.Generated.Constructors_{prev_ctor_mod[mid]}\n")
         out.append(f"namespace Generated.Ctors.{mid}\nopen Conform\n\n")
+        if not m.operators or not m.constructors:
+            info["problems"].append(f"{mid}: no readable _OPERATORS / _CONSTRUCTORS dict literal")
         for cname in m.classes:
-            c = src.class_sig(mid, cname)
+            try:
+                c = src.class_sig(mid, cname)
+            except Exception as e:  # noqa: BLE001 - degrade to an entry whose obligation fails
+                c = {"id": f"{mid}.{cname}", "pyName": cname, "module": mid, "base": "?", "opName": "?", "domain": "?",
+                     "version": 0, "inputs": [], "outputs": [], "attrs": [],
+                     "problems": [f"{cname}: extraction failed: {type(e).__name__}: {e}"]}
             info["classes"][c["id"]] = c
             for p in c["problems"]:
                 info["problems"].append(f"{mid}: {p}")
             out.append(f"def cls{lean_ident(cname)} : ClassSig :=\n  {lean_class(c)}\n\n")
         for fname in m.funcs:
-            f = src.ctor_sig(mid, fname)
+            try:
+                f = src.ctor_sig(mid, fname)
+            except Exception as e:  # noqa: BLE001
+                f = {"id": f"{mid}.{fname}", "pyName": fname, "module": mid, "cls": None, "params": [],
+                     "attrWires": [], "inputWires": [], "outVar": {"t": "none"}, "ret": {"t": "other", "v": "?"},
+                     "problems": [f"{fname}: extraction failed: {type(e).__name__}: {e}"]}
+                if fname not in _referenced_funcs(src, mid):
+                    continue
             if f["cls"] is None and not any(fname == src_name for src_name in _referenced_funcs(src, mid)):
                 continue  # helper such as `const` (not a constructor of the tables)
             info["ctors"][f["id"]] = f
